@@ -16,6 +16,8 @@ import (
 // enough, takes the frontier entries j with j % N == i, and explores those subtrees completely. Counts are exact:
 // the shared top part is counted by shard 0 only and the subtrees are disjoint.
 
+var skipPrefixes = map[string]bool{}
+
 type childResult struct {
 	Sec      *Section  `json:"section"`
 	Outcomes []string  `json:"outcomes"`
@@ -30,10 +32,18 @@ func runChild(sec *Section, body func(*X), o Opts) {
 	n, _ := strconv.Atoi(parts[1])
 	start := time.Now()
 	crashFile = os.Getenv("VERIF_CHILD_OUT") + ".cur"
+	for _, f := range strings.Split(os.Getenv("VERIF_SKIP_PREFIXES"), ";") {
+		if f != "" {
+			skipPrefixes[f] = true
+		}
+	}
 	frontier := [][]int{nil}
 	for round := 0; round < 8 && len(frontier) < 16*n && len(frontier) > 0; round++ {
 		var next [][]int
 		for _, pre := range frontier {
+			if skipPrefixes[fmt.Sprint(pre)] {
+				continue // this prefix killed an earlier worker; it is already reported
+			}
 			if o.CrashTrace {
 				_ = os.WriteFile(crashFile, []byte(fmt.Sprint(pre)), 0o644)
 			}
@@ -84,38 +94,50 @@ func runParent(sec *Section, o Opts) {
 	var wg sync.WaitGroup
 	results := make([]*childResult, n)
 	errsCh := make([]string, n)
-	crashes := make([]*Failure, n)
+	var crashes []Failure
+	var crashMu sync.Mutex
 	for i := 0; i < n; i++ {
 		wg.Add(1)
 		go func(i int) {
 			defer wg.Done()
 			out := fmt.Sprintf("%s/%d.json", dir, i)
-			cmd := exec.Command(os.Args[0], "-test.run", "^TestCheck$", "-test.timeout", "0")
-			cmd.Env = append(os.Environ(), "VERIF_CHILD="+o.Name, fmt.Sprintf("VERIF_SHARD=%d/%d", i, n), "VERIF_CHILD_OUT="+out, "VERIF_TIER="+tier, fmt.Sprintf("VERIF_SEED=%d", seed))
-			if o.Serial {
-				cmd.Env = append(cmd.Env, "GOMAXPROCS=2")
-			}
-			b, err := cmd.CombinedOutput()
-			data, rerr := os.ReadFile(out)
-			if rerr != nil {
-				if cur, cerr := os.ReadFile(out + ".cur"); cerr == nil && o.CrashTrace {
-					// the worker process died while executing this prefix: that is an observable crash of the code under test
-					var pre []int
-					for _, f := range strings.Fields(strings.Trim(string(cur), "[]")) {
-						v, _ := strconv.Atoi(f)
-						pre = append(pre, v)
-					}
-					crashes[i] = &Failure{Key: "process-crash", Msg: "the worker process was killed while executing this choice sequence (fatal panic outside any recoverable goroutine / runtime throw):\n" + crashExcerpt(string(b)), Choices: pre, Labels: []string{fmt.Sprint(pre)}}
+			var skips []string
+			for attempt := 0; attempt < 6; attempt++ {
+				_ = os.Remove(out)
+				_ = os.Remove(out + ".cur")
+				cmd := exec.Command(os.Args[0], "-test.run", "^TestCheck$", "-test.timeout", "0")
+				cmd.Env = append(os.Environ(), "VERIF_CHILD="+o.Name, fmt.Sprintf("VERIF_SHARD=%d/%d", i, n), "VERIF_CHILD_OUT="+out, "VERIF_TIER="+tier, fmt.Sprintf("VERIF_SEED=%d", seed), "VERIF_SKIP_PREFIXES="+strings.Join(skips, ";"))
+				if o.Serial {
+					cmd.Env = append(cmd.Env, "GOMAXPROCS=2")
 				}
-				errsCh[i] = fmt.Sprintf("shard %d produced no result (%v): %s", i, err, tail(string(b), 600))
+				b, err := cmd.CombinedOutput()
+				data, rerr := os.ReadFile(out)
+				if rerr != nil {
+					if cur, cerr := os.ReadFile(out + ".cur"); cerr == nil && o.CrashTrace {
+						// the worker process died while executing this prefix: an observable crash of the code under test
+						var pre []int
+						for _, f := range strings.Fields(strings.Trim(string(cur), "[]")) {
+							v, _ := strconv.Atoi(f)
+							pre = append(pre, v)
+						}
+						crashMu.Lock()
+						crashes = append(crashes, Failure{Key: "process-crash", Msg: "the worker process was killed while executing this choice sequence (fatal panic outside any recoverable goroutine / runtime throw):\n" + crashExcerpt(string(b)), Choices: pre, Labels: []string{fmt.Sprint(pre)}})
+						crashMu.Unlock()
+						skips = append(skips, fmt.Sprint(pre))
+						continue // restart the shard without that prefix (its subtree stays unexplored)
+					}
+					errsCh[i] = fmt.Sprintf("shard %d produced no result (%v): %s", i, err, tail(string(b), 600))
+					return
+				}
+				var r childResult
+				if jerr := json.Unmarshal(data, &r); jerr != nil {
+					errsCh[i] = fmt.Sprintf("shard %d result unreadable: %v", i, jerr)
+					return
+				}
+				results[i] = &r
 				return
 			}
-			var r childResult
-			if jerr := json.Unmarshal(data, &r); jerr != nil {
-				errsCh[i] = fmt.Sprintf("shard %d result unreadable: %v", i, jerr)
-				return
-			}
-			results[i] = &r
+			errsCh[i] = fmt.Sprintf("shard %d crashed on %d different prefixes; giving up on its remaining subtrees", i, len(skips))
 		}(i)
 	}
 	wg.Wait()
@@ -123,12 +145,7 @@ func runParent(sec *Section, o Opts) {
 	seenFail := map[string]bool{}
 	for i, r := range results {
 		if r == nil {
-			if crashes[i] != nil {
-				sec.fails = append(sec.fails, *crashes[i])
-				sec.Notes = append(sec.Notes, fmt.Sprintf("shard %d crashed; its remaining subtrees were not explored", i))
-			} else {
-				HarnessFail("section %s: %s", o.Name, errsCh[i])
-			}
+			HarnessFail("section %s: %s", o.Name, errsCh[i])
 			capHit = true
 			continue
 		}
@@ -162,6 +179,20 @@ func runParent(sec *Section, o Opts) {
 			}
 		}
 		capHit = capHit || r.CapHit
+	}
+	if len(crashes) > 0 {
+		seenCrash := map[string]bool{}
+		var uniq []Failure
+		for _, c := range crashes {
+			if k := fmt.Sprint(c.Choices); !seenCrash[k] {
+				seenCrash[k] = true
+				uniq = append(uniq, c)
+			}
+		}
+		crashes = uniq
+		sec.fails = append(sec.fails, crashes...)
+		sec.Notes = append(sec.Notes, fmt.Sprintf("%d executions killed their worker process; the subtrees below those prefixes were not explored", len(crashes)))
+		capHit = true
 	}
 	sec.Notes = append(sec.Notes, fmt.Sprintf("explored by %d worker processes (disjoint subtrees of the choice tree)", n))
 	sec.Exhaustive = !capHit && sec.Abandoned == 0
